@@ -54,6 +54,9 @@ func init() {
 		"strings.Contains":                            stringsContains,
 		"strings.Split":                               stringsSplit,
 		"strings.Replace":                             stringsReplace,
+		"strings.ReplaceAll":                          stringsReplaceAll,
+		"(net/url.Values).Add":                        urlValuesSet,
+		"(net/url.Values).Set":                        urlValuesSet,
 		"encoding/json.Marshal":                       jsonMarshal,
 		"encoding/json.Unmarshal":                     jsonUnmarshal,
 		"hash/crc32.MakeTable":                        havocResult("crctable"),
@@ -740,6 +743,20 @@ func stringsReplace(e *Engine, st *State, args []Value, depth int, pos string, k
 // strings.ReplaceAll(s, old, new) == strings.Replace(s, old, new, -1)
 func stringsReplaceAll(e *Engine, st *State, args []Value, depth int, pos string, k func(*State, Value)) {
 	stringsReplace(e, st, append(append([]Value{}, args...), sym(IntLit(-1))), depth, pos, k)
+}
+
+// url.Values.Add/Set with constant key: recorded as a connection option (OpenBucket's SQLite parameters)
+func urlValuesSet(e *Engine, st *State, args []Value, depth int, pos string, k func(*State, Value)) {
+	if len(args) >= 3 {
+		if ks, ok := args[1].(VSym); ok {
+			if key, ok := e.reverseStr(ks.T.S); ok {
+				if vs, ok := args[2].(VSym); ok {
+					st.addTrace(TraceEv{Kind: "urlopt", Text: key, Pos: pos, Terms: map[string]Term{"v": vs.T}})
+				}
+			}
+		}
+	}
+	k(st, nil)
 }
 
 func crcChecksum(e *Engine, st *State, args []Value, depth int, pos string, k func(*State, Value)) {
